@@ -5,6 +5,7 @@ import (
 	"go/ast"
 	"go/token"
 	"go/types"
+	"golang.org/x/tools/go/ssa"
 	"strconv"
 	"strings"
 )
@@ -452,11 +453,7 @@ func (e *Env) call(n *ast.CallExpr) Val {
 		if len(avs) != len(fn.Params) {
 			g.fail("gocall %s: %d arguments for %d parameters", name, len(avs), len(fn.Params))
 		}
-		res, _, _ := g.runFunc(fn, avs, nil, e.state().clone(), "true", 1, nil, false)
-		if len(res) != 1 || res[0].Term == "" {
-			g.fail("gocall %s: not a single plain result", name)
-		}
-		return res[0]
+		return g.gocallMacro(fn, name, avs, e.state())
 	case "mhas", "mvals": // mhas(m) / mvals(m): the membership and value arrays of a Go map (arguments of theory functions over maps)
 		need(1)
 		m := e.tr(args[0])
@@ -831,4 +828,108 @@ func (e *Env) storeNested(t Val, keys []Val, leaf func(elSort string) string) Va
 func optEl(sort string) string {
 	el, _ := optionElem(sort)
 	return el
+}
+
+// gocallMacro turns a pure, loop-free helper of the repository into an SMT function: the helper is executed
+// symbolically once on placeholder arguments, the definitions that run emitted are folded into one closed term over
+// the placeholders, and (define-fun gc_<helper> ...) is emitted. A call then is an ordinary application, so that the
+// arguments may mention bound variables of a quantifier in the contract.
+func (g *Gen) gocallMacro(fn *ssa.Function, name string, avs []Val, st *State) Val {
+	if g.gocallFns == nil {
+		g.gocallFns = map[string][2]string{}
+	}
+	key := name
+	for _, a := range avs {
+		key += "|" + a.Sort
+	}
+	mac, ok := g.gocallFns[key]
+	if !ok {
+		mark := len(g.buf)
+		var ph []Val
+		var params []string
+		for k, a := range avs {
+			pn := fmt.Sprintf("gcp!%s!%d", mangle(name), k)
+			ph = append(ph, Val{Sort: a.Sort, Term: pn, GoT: a.GoT})
+			params = append(params, fmt.Sprintf("(%s %s)", pn, monoOptions(a.Sort)))
+		}
+		res, _, _ := g.runFunc(fn, ph, nil, st.clone(), "true", 1, nil, false)
+		if len(res) != 1 || res[0].Term == "" {
+			g.fail("gocall %s: not a single plain result", name)
+		}
+		// fold the definitions emitted by the run (declare-const N S / assert (= N E)) into the result term
+		declared := map[string]bool{}
+		defs := map[string]string{}
+		var order []string
+		for _, l := range g.buf[mark:] {
+			if strings.HasPrefix(l, "(declare-const ") {
+				f := strings.Fields(l[len("(declare-const "):])
+				declared[f[0]] = true
+				continue
+			}
+			if strings.HasPrefix(l, "(assert (= ") {
+				rest := l[len("(assert (= ") : len(l)-2]
+				if i := strings.Index(rest, " "); i > 0 && declared[rest[:i]] {
+					defs[rest[:i]] = rest[i+1:]
+					order = append(order, rest[:i])
+				}
+			}
+			// anything else emitted by the run is an assumption about the placeholders (type ranges): dropped
+		}
+		for n := range declared {
+			delete(g.declared, n)
+		}
+		g.buf = g.buf[:mark]
+		term := res[0].Term
+		for i := len(order) - 1; i >= 0; i-- {
+			term = replaceSymbol(term, order[i], defs[order[i]])
+		}
+		for n := range declared {
+			if containsSymbol(term, n) {
+				g.fail("gocall %s: the result depends on a value the helper does not compute from its arguments (%s)", name, n)
+			}
+		}
+		fnName := fmt.Sprintf("gc_%s_%d", mangle(name), len(g.gocallFns))
+		g.emit(fmt.Sprintf("(define-fun %s (%s) %s %s)", fnName, strings.Join(params, " "), monoOptions(res[0].Sort), term))
+		mac = [2]string{fnName, res[0].Sort}
+		g.gocallFns[key] = mac
+	}
+	var as []string
+	for _, a := range avs {
+		as = append(as, a.Term)
+	}
+	if len(as) == 0 {
+		return Val{Sort: mac[1], Term: mac[0]}
+	}
+	return Val{Sort: mac[1], Term: fmt.Sprintf("(%s %s)", mac[0], strings.Join(as, " "))}
+}
+
+func isSymChar(c byte) bool {
+	return c != '(' && c != ')' && c != ' ' && c != '\n' && c != '\t' && c != '"'
+}
+
+// replaceSymbol replaces whole-symbol occurrences of sym in an S-expression text (outside string literals)
+func replaceSymbol(term, sym, by string) string {
+	var b strings.Builder
+	inStr := false
+	for i := 0; i < len(term); {
+		c := term[i]
+		if c == '"' {
+			inStr = !inStr
+			b.WriteByte(c)
+			i++
+			continue
+		}
+		if !inStr && strings.HasPrefix(term[i:], sym) && (i == 0 || !isSymChar(term[i-1])) && (i+len(sym) == len(term) || !isSymChar(term[i+len(sym)])) {
+			b.WriteString(by)
+			i += len(sym)
+			continue
+		}
+		b.WriteByte(c)
+		i++
+	}
+	return b.String()
+}
+
+func containsSymbol(term, sym string) bool {
+	return replaceSymbol(term, sym, "\x00") != term
 }
